@@ -104,6 +104,7 @@ func (dist *GParetoDistribution) LogPdf(r Scalar, x ConstScalar) error {
 
   if dist.Xi.GetFloat64() == 0.0 {
     r.Neg(r)
+    r.Sub(r, dist.cs)  // cs  = log sigma
   } else {
     r.Mul(r, dist.Xi)
     r.Log1p(r)
